@@ -405,6 +405,9 @@ func main() {
 	case "ix":
 		runIx(n)
 		return
+	case "lk":
+		runLK(n)
+		return
 	case "ixreplay":
 		runIxReplay(os.Args[2])
 		return
